@@ -528,6 +528,8 @@ impl ScalarType {
         for def in &extensions {
             if let ast::Definition::ScalarTypeExtension(ext) = def {
                 ty.extend_ast(errors, ext)
+            } else {
+                orphan_extension_kind_mismatch(errors, def, &definition.name, "a scalar type")
             }
         }
         definition.same_location(ty)
@@ -596,6 +598,8 @@ impl ObjectType {
         for def in &extensions {
             if let ast::Definition::ObjectTypeExtension(ext) = def {
                 ty.extend_ast(errors, ext)
+            } else {
+                orphan_extension_kind_mismatch(errors, def, &definition.name, "an object type")
             }
         }
         definition.same_location(ty)
@@ -696,6 +700,8 @@ impl InterfaceType {
         for def in &extensions {
             if let ast::Definition::InterfaceTypeExtension(ext) = def {
                 ty.extend_ast(errors, ext)
+            } else {
+                orphan_extension_kind_mismatch(errors, def, &definition.name, "an interface type")
             }
         }
         definition.same_location(ty)
@@ -781,6 +787,8 @@ impl UnionType {
         for def in &extensions {
             if let ast::Definition::UnionTypeExtension(ext) = def {
                 ty.extend_ast(errors, ext)
+            } else {
+                orphan_extension_kind_mismatch(errors, def, &definition.name, "a union type")
             }
         }
         definition.same_location(ty)
@@ -852,6 +860,8 @@ impl EnumType {
         for def in &extensions {
             if let ast::Definition::EnumTypeExtension(ext) = def {
                 ty.extend_ast(errors, ext)
+            } else {
+                orphan_extension_kind_mismatch(errors, def, &definition.name, "an enum type")
             }
         }
         definition.same_location(ty)
@@ -921,6 +931,13 @@ impl InputObjectType {
         for def in &extensions {
             if let ast::Definition::InputObjectTypeExtension(ext) = def {
                 ty.extend_ast(errors, ext)
+            } else {
+                orphan_extension_kind_mismatch(
+                    errors,
+                    def,
+                    &definition.name,
+                    "an input object type",
+                )
             }
         }
         definition.same_location(ty)
@@ -955,6 +972,25 @@ impl InputObjectType {
             },
         )
     }
+}
+
+/// An extension found before the definition of its type turns out to be of another kind
+fn orphan_extension_kind_mismatch(
+    errors: &mut DiagnosticList,
+    extension: &ast::Definition,
+    definition_name: &Name,
+    describe_def: &'static str,
+) {
+    let name = extension.name().unwrap();
+    errors.push(
+        name.location(),
+        BuildError::TypeExtensionKindMismatch {
+            name: name.clone(),
+            describe_ext: extension.describe(),
+            def_location: definition_name.location(),
+            describe_def,
+        },
+    )
 }
 
 /// Like `IndexMap::extend`, but does not replace a value if an equivalent key is already in the map.
